@@ -313,7 +313,9 @@ type kase struct {
 	Kind    string   `json:"kind"`
 }
 
-var pointerish = regexp.MustCompile(`0xc[0-9a-f]{6,}|%!\w\(|\(0x[0-9a-f]+|\*lisp\.|&\{`)
+// pointerish matches a rendered memory address only.  A Go type name ("#<native value: *lisp.ErrorVal>") or a
+// struct dump is the same text on every run, so it is left to the transcript comparison, which is what decides C10.
+var pointerish = regexp.MustCompile(`0xc[0-9a-f]{6,}|\(0x[0-9a-f]+`)
 
 func diffAt(a, b string) string {
 	n := len(a)
